@@ -97,6 +97,7 @@ Inductive wop (T : Type) :=
 | WNeg (self tmp : elem) | WPos (self tmp : elem)
 | WCopyLeaf (self tmp : nat)
 | WIPow (generic_copy : bool) (self : elem) (p : nat) (tmp one_tmp : elem)
+| WIPowNeg (generic_copy : bool) (self : elem) (p : nat) (tmp one_tmp one2 : elem)   (* x **= -p *)
 | WBcast (inplace : bool) (k : bkind) (sp0 : space) (parts : elems) (other : elem) (tmps : elems).
 Arguments WLincomb1 {T}. Arguments WLincomb2 {T}. Arguments WMultiply {T}. Arguments WDivide {T}.
 Arguments WAssign {T}. Arguments WCopy {T}. Arguments WSetZero {T}.
@@ -105,7 +106,7 @@ Arguments WISub {T}. Arguments WSub {T}. Arguments WISubS {T}. Arguments WSubS {
 Arguments WRSub {T}. Arguments WRSubS {T}. Arguments WIMulS {T}. Arguments WMulS {T}.
 Arguments WIMul {T}. Arguments WMul {T}. Arguments WITrueDivS {T}. Arguments WTrueDivS {T}.
 Arguments WITrueDiv {T}. Arguments WTrueDiv {T}. Arguments WRTrueDiv {T}. Arguments WRTrueDivS {T}.
-Arguments WNeg {T}. Arguments WPos {T}. Arguments WCopyLeaf {T}. Arguments WIPow {T}. Arguments WBcast {T}.
+Arguments WNeg {T}. Arguments WPos {T}. Arguments WCopyLeaf {T}. Arguments WIPow {T}. Arguments WIPowNeg {T}. Arguments WBcast {T}.
 
 Record caseW (T : Type) := mkW {
   w_sp : space;
@@ -132,25 +133,25 @@ Definition run_b (inplace : bool) (k : bkind) (sp0 : space) (other : elem) (x t 
     match k with
     | BAdd | BRAdd => w_iadd flg bdtf icast sp0 x other
     | BSub | BRSub => w_isub flg bdtf icast sp0 x other
-    | BMul | BRMul => w_imul sp0 x other
-    | BDiv | BRDiv => w_itruediv sp0 x other
+    | BMul | BRMul => w_imul flg bdtf icast sp0 x other
+    | BDiv | BRDiv => w_itruediv flg bdtf icast sp0 x other
     end
   else
     match k with
     | BAdd | BRAdd => w_add flg bdtf icast sp0 x other t
     | BSub => w_sub flg bdtf icast sp0 x other t
     | BRSub => w_rsub flg bdtf icast sp0 x other t
-    | BMul | BRMul => w_mul sp0 x other t
-    | BDiv => w_truediv sp0 x other t
-    | BRDiv => w_rtruediv sp0 x other t
+    | BMul | BRMul => w_mul flg bdtf icast sp0 x other t
+    | BDiv => w_truediv flg bdtf icast sp0 x other t
+    | BRDiv => w_rtruediv flg bdtf icast sp0 x other t
     end.
 
 Definition run_wop (sp : space) (o : wop T) : store T -> outcome T :=
   match o with
   | WLincomb1 a x1 out => w_lincomb1 flg bdtf icast sp a x1 out
   | WLincomb2 a x1 b x2 out => w_lincomb2 flg bdtf icast sp a x1 b x2 out
-  | WMultiply x1 x2 out => ps_multiply sp x1 x2 out
-  | WDivide x1 x2 out => ps_divide sp x1 x2 out
+  | WMultiply x1 x2 out => w_multiply sp x1 x2 out
+  | WDivide x1 x2 out => w_divide sp x1 x2 out
   | WAssign self other => w_assign flg bdtf icast sp self other
   | WCopy self tmp => w_copy flg bdtf icast sp self tmp
   | WSetZero self => w_set_zero flg bdtf icast sp self
@@ -166,13 +167,13 @@ Definition run_wop (sp : space) (o : wop T) : store T -> outcome T :=
   | WRSubS self c tmp => w_rsub_scalar flg bdtf icast sp self c tmp
   | WIMulS self c => w_imul_scalar flg bdtf icast sp self c
   | WMulS self c tmp => w_mul_scalar flg bdtf icast sp self c tmp
-  | WIMul self other => w_imul sp self other
-  | WMul self other tmp => w_mul sp self other tmp
+  | WIMul self other => w_imul flg bdtf icast sp self other
+  | WMul self other tmp => w_mul flg bdtf icast sp self other tmp
   | WITrueDivS self c => w_itruediv_scalar flg bdtf icast sp self c
   | WTrueDivS self c tmp => w_truediv_scalar flg bdtf icast sp self c tmp
-  | WITrueDiv self other => w_itruediv sp self other
-  | WTrueDiv self other tmp => w_truediv sp self other tmp
-  | WRTrueDiv self other tmp => w_rtruediv sp self other tmp
+  | WITrueDiv self other => w_itruediv flg bdtf icast sp self other
+  | WTrueDiv self other tmp => w_truediv flg bdtf icast sp self other tmp
+  | WRTrueDiv self other tmp => w_rtruediv flg bdtf icast sp self other tmp
   | WRTrueDivS self c tmp => w_rtruediv_scalar flg bdtf icast sp self c tmp
   | WNeg self tmp => w_neg flg bdtf icast sp self tmp
   | WPos self tmp => w_pos flg bdtf icast sp self tmp
@@ -181,6 +182,12 @@ Definition run_wop (sp : space) (o : wop T) : store T -> outcome T :=
       w_ipow flg bdtf icast (S p)
         (if g then w_copy flg bdtf icast sp else fun x t => w_copy_leaf (leaf_id x) (leaf_id t))
         sp self p tmp one_tmp
+  | WIPowNeg g self p tmp one_tmp one2 =>
+      (* self **= -p  is  self **= p; self.space.divide(self.space.one(), self, out=self) *)
+      seq (w_ipow flg bdtf icast (S p)
+             (if g then w_copy flg bdtf icast sp else fun x t => w_copy_leaf (leaf_id x) (leaf_id t))
+             sp self p tmp one_tmp)
+          (with_one one2 (w_divide sp one2 self self))
   | WBcast inplace k sp0 parts other tmps =>
       if inplace then bcast1 (fun x => run_b true k sp0 other x x) parts
       else bcast2 (run_b false k sp0 other) parts tmps
